@@ -4,7 +4,7 @@ import hirutil as H
 import hirpp
 import facts
 import k2
-from facts import AnchorLost, hir_walk, ap_str
+from facts import AnchorLost, hir_walk, ap_str, ap_calls
 
 CORE = "rink_core"
 FK = "rink_core::runtime::eval::eval_query"
@@ -112,6 +112,95 @@ def run(chk, F):
     chk.guard("dedup-total-order", "Factors", lambda: dedup_order(chk, F))
 
 
+def shortcut_mir(F):
+    """The quantity-name shortcut decided on the MIR, whatever the locals are called and wherever the search lives (inline loop,
+    the existing find_quantity, a new helper): per command, {"ok": bool, "kind": .., "why": ..}.  A *reading* is a use of the
+    dimensionality `item.0` of an entry `item` of registry.quantities (the `u.clone()` / `dims.clone()`); it must lie behind the
+    true edge of a comparison of that entry's name `item.1` with something, and the command's arm must reach it."""
+    import prov
+    fn = F.find(CORE, "runtime::eval::eval_query")
+
+    def readings(g):
+        out = []
+        for bb, t in g.calls():
+            if "callee" in t and t["callee"]["path"].endswith("Clone>::clone") and t["args"]:
+                a = g.apath(t["args"][0])
+                if a[1][-3:] == ("as Some", "0", "0") and "registry.quantities" in ap_str(a) and "::next(" in ap_str(a):
+                    item = (a[0], a[1][:-1])
+                    named = False
+                    for gd in g.guards_of(bb):
+                        d = g.guard_desc(gd)
+                        if d[0] == "bool" and d[1][0][0] == "call" and ("PartialEq" in d[1][0][1]) and not d[1][1]:
+                            is_eq = d[1][0][1].endswith("::eq")
+                            if (d[2] is True) == is_eq and any(facts.ap_match(x, (item[0], item[1] + ("1",))) for x in d[1][0][2]):
+                                named = True
+                    out.append((bb, named))
+        return out
+
+    def helper_readings(h, depth=2):
+        r = readings(h)
+        if r or depth == 0:
+            return r
+        for bb, t in h.calls():
+            g = facts.private_helper(F, CORE, t["callee"]["path"]) if "callee" in t else None
+            if g is not None and g.id != h.id:
+                r += helper_readings(g, depth - 1)
+        return r
+
+    res = {}
+    for arm in ("UnitsFor", "Factorize"):
+        def in_arm(bb):
+            return any(d[0] == "variant" and d[3] == arm and "query::Query" in d[2] for d in (fn.guard_desc(g) for g in fn.guards_of(bb)))
+        sites, kind = [], None
+        # the quantity reading comes first: it is not tried only after the name failed to be a unit (`force` and `jerk` are both)
+        def after_unit_lookup(g, bb):
+            return [ap_str(d[1])[-70:] for d in (g.guard_desc(x) for x in g.guards_of(bb))
+                    if any(w in ap_str(d[1]) for w in ("Context::lookup(", "Registry::lookup", "registry.units", "::canonicalize("))]
+        late = []
+        for bb, named in readings(fn):
+            if in_arm(bb):
+                sites.append(named)
+                kind = "inline"
+                late += after_unit_lookup(fn, bb)
+        for bb, t in fn.calls():
+            g = facts.private_helper(F, CORE, t["callee"]["path"]) if "callee" in t else None
+            if g is not None and in_arm(bb):
+                hr = helper_readings(g)
+                if hr:
+                    sites += [n for _, n in hr]
+                    kind = "helper"
+                    late += after_unit_lookup(fn, bb)
+                    for hb, _ in hr:
+                        late += [x for h2 in [g] + [facts.private_helper(F, CORE, t2["callee"]["path"]) for _, t2 in g.calls() if "callee" in t2 and facts.private_helper(F, CORE, t2["callee"]["path"])]
+                                 for x in (after_unit_lookup(h2, hb) if any(b_ == hb for b_, _ in readings(h2)) else [])]
+        evals = [bb for bb, t in fn.calls() if "callee" in t and t["callee"]["path"].endswith("eval::eval_expr") and in_arm(bb)]
+        # helpers of the arm may evaluate the expression instead
+        hevals = [1 for bb, t in fn.calls() if "callee" in t and in_arm(bb) and facts.private_helper(F, CORE, t["callee"]["path"]) is not None
+                  and helper_readings(facts.private_helper(F, CORE, t["callee"]["path"]))
+                  and any("callee" in t2 and t2["callee"]["path"].endswith("eval::eval_expr") for _, t2 in facts.private_helper(F, CORE, t["callee"]["path"]).calls())]
+        ok = bool(sites) and all(sites) and (len(evals) + len(hevals)) == 1 and not late
+        res[arm] = {"ok": ok, "kind": kind, "why": "%d reading(s) of registry.quantities, %d behind the name test, %d evaluation(s) of the expression%s" % (
+            len(sites), sum(1 for x in sites if x), len(evals) + len(hevals), ("; the quantity is read only after a unit lookup (%s)" % late[0]) if late else "")}
+    # Factorize: what is handed to factorize() is 1 x that dimensionality, or the evaluated expression
+    for bb, t in fn.calls():
+        if "callee" in t and t["callee"]["path"].endswith("commands::factorize::factorize"):
+            bad = []
+            for k_, v_ in prov.sources(F, fn, t["args"][0]):
+                if k_ == "value" and "registry.quantities" in ap_str(v_):
+                    continue
+                if k_.endswith("Numeric::one") or k_.endswith("eval::eval_expr"):
+                    continue
+                if k_ == "value" and any(c.endswith("eval::eval_expr") for c in ap_calls(v_)):
+                    continue
+                if k_ == "?" or k_.startswith("runtime::value::Value::") or k_ == "value" or k_ == "param":
+                    continue      # not followed further / a payload of the evaluated value: no other producer of numbers
+                bad.append(k_)
+            if bad:
+                res["Factorize"]["ok"] = False
+                res["Factorize"]["why"] += "; the value factorized can also come from %s" % bad[:3]
+    return res
+
+
 def shortcut(chk, F):
     fn, ua = query_arm(F, "UnitsFor")
     _, fa = query_arm(F, "Factorize")
@@ -133,9 +222,23 @@ def shortcut(chk, F):
             chk.decide(hu.id == hf.id, "shortcut", FK, "siblings-agree", where, "both commands resolve their operand with the same helper",
                        "units-for and factorize use different helpers (%s, %s)" % (hu.path, hf.path))
             return
+    mir = shortcut_mir(F)
+    if du is None or df is None:
+        # neither the inline loop nor one helper for the whole operand: decided on the MIR alone
+        for name, arm in (("UnitsFor", ua), ("Factorize", fa)):
+            chk.decide(mir[name]["ok"], "shortcut", FK, name + ":quantity-name-to-dimensionality", "%s:%d" % (fn.file, arm["line"]),
+                       "a bare quantity name resolves to the dimensionality registered under exactly that name (%s: %s)" % (mir[name]["kind"], mir[name]["why"]),
+                       "the quantity-name shortcut of %s does not read the dimensionality registered under that name: %s" % (name, mir[name]["why"]))
+            chk.decide(mir[name]["ok"], "shortcut", FK, name + ":single-source", "%s:%d" % (fn.file, arm["line"]),
+                       "X is either the named quantity's dimensionality or the evaluated expression", "%s: %s" % (name, mir[name]["why"]))
+        chk.decide(mir["UnitsFor"]["kind"] == mir["Factorize"]["kind"], "shortcut", FK, "siblings-agree", where, "both commands resolve a quantity name the same way",
+                   "units-for and factorize resolve a quantity name differently: %s vs %s" % (mir["UnitsFor"]["kind"], mir["Factorize"]["kind"]))
+        return
     for name, d, arm in (("UnitsFor", du, ua), ("Factorize", df, fa)):
         ok = d is not None and d["iterates"] == "&ctx.registry.quantities" and d["cond"] in ("(name Eq k)", "(k Eq name)") and \
             d["item"].replace(" ", "") in ("Option::Some{0:(u,k)}",) and "unit: u.clone()" in d["assign"] and "value: Numeric::one()" in d["assign"] and d["breaks"] >= 1
+        # (the same loop with other names for its locals: the MIR reading decides)
+        ok = ok or (d is not None and d["breaks"] >= 1 and mir[name]["ok"])
         chk.decide(ok, "shortcut", FK, name + ":quantity-name-to-dimensionality", "%s:%d" % (fn.file, d["line"] if d else arm["line"]),
                    "a bare quantity name resolves to the dimensionality registered under exactly that name (loop over registry.quantities, name == k, unit: u)",
                    "the quantity-name shortcut of %s is not `for (u, k) in &registry.quantities { if name == k { val = 1 * u } }` (found %s)" % (name, d))
